@@ -307,6 +307,20 @@ theorem map_id' (f : List α → List α) (hf : ∀ o, f o = o) (l : List (List 
 
 /-! ### the sub-environments' own record -/
 
+theorem transitions_length (cs as : List (List α)) (rs : List (RawStep α))
+    (h1 : cs.length = rs.length) (h2 : as.length = rs.length) : (transitions cs as rs).length = rs.length := by
+  induction rs generalizing cs as with
+  | nil => cases cs <;> cases as <;> simp_all [transitions]
+  | cons r rs ih =>
+    cases cs with
+    | nil => simp at h1
+    | cons c cs =>
+      cases as with
+      | nil => simp at h2
+      | cons a as =>
+        simp only [transitions, List.length_cons]
+        rw [ih cs as (by simpa using h1) (by simpa using h2)]
+
 theorem transitions_spec (f : List α → List α) (cs as : List (List α)) (rs : List (RawStep α))
     (h1 : cs.length = rs.length) (h2 : as.length = rs.length) :
     specCore f (transitions cs as rs) =
@@ -427,10 +441,17 @@ structure Inv (cfg : Cfg α) (s : Sys α) : Prop where
     (cfg.vecNormalize = false → z = none) ∧ o.policyInput = viewOf z o.row.obs
   last : s.st.started = true → ∃ z : Option (Normalizer α),
     (cfg.vecNormalize = false → z = none) ∧ s.st.lastObs = viewOf z (origObs cfg s.st)
+  /-- every vectorised step recorded one transition per sub-environment -/
+  logLen : ∀ ts ∈ s.w.log, ts.length = cfg.nEnvs
+  /-- stored action and env action of a step come from the same `_sample_action` call -/
+  paired : ∀ o ∈ s.st.trace, ∃ (noise : Option (List (List α))) (us : List (List α)),
+    o.action = (sampleActions cfg.space noise us).map (·.1) ∧
+    o.row.action = (sampleActions cfg.space noise us).map (·.2)
 
 theorem inv_init (cfg : Cfg α) : Inv cfg (Sys.init : Sys α) :=
   ⟨by simp [Sys.init, St.init], by simp [Sys.init, St.init, World.init],
-   by simp [Sys.init, St.init, World.init], by simp [Sys.init, St.init], by simp [Sys.init, St.init]⟩
+   by simp [Sys.init, St.init, World.init], by simp [Sys.init, St.init], by simp [Sys.init, St.init],
+   by simp [Sys.init, World.init], by simp [Sys.init, St.init]⟩
 
 theorem inv_bodyS (cfg : Cfg α) (s : Sys α) (x : StepIn α) (hi : Inv cfg s) (hs : s.st.started = true)
     (hwf : x.wf cfg = true) (hrt : TermRoundTrip x) (hp : PostTrivialUnderVN cfg) :
@@ -438,7 +459,7 @@ theorem inv_bodyS (cfg : Cfg α) (s : Sys α) (x : StepIn α) (hi : Inv cfg s) (
   obtain ⟨hu, hr, hn, hz⟩ := wf_unpack cfg x hwf
   have sp := body_spec cfg s.st x hwf hrt hp
   simp only at sp
-  obtain ⟨b1, b2, b3, b4, b5, b6, b7, b8, b9, _, b11, b12, _⟩ := sp
+  obtain ⟨b1, b2, b3, b4, b5, b6, b7, b8, b9, _, b11, b12, b13⟩ := sp
   obtain ⟨hc, hcl⟩ := hi.cur hs
   have hal : (body cfg s.st x).2.action.length = x.raws.length := by
     rw [b12, List.length_map, sampleActions_length _ _ _ (fun es h => by rw [hn es h, hu]), hu, hr]
@@ -447,7 +468,7 @@ theorem inv_bodyS (cfg : Cfg α) (s : Sys α) (x : StepIn α) (hi : Inv cfg s) (
       specCore cfg.post (transitions s.w.cur (body cfg s.st x).2.action x.raws) := by
     rw [tr.1]
     simp only [Row.core, b1, b2, b3, b4, b5, hc]
-  refine ⟨⟨?_, ?_, ?_, ?_, ?_⟩, ?_⟩
+  refine ⟨⟨?_, ?_, ?_, ?_, ?_, ?_, ?_⟩, ?_⟩
   · intro _
     simp only [bodyS, World.step]
     exact ⟨b7, by rw [List.length_map, hr]⟩
@@ -468,6 +489,16 @@ theorem inv_bodyS (cfg : Cfg α) (s : Sys α) (x : StepIn α) (hi : Inv cfg s) (
       | some z => rw [hx] at hz; simp at hz
     · simp only [bodyS]
       exact b8
+  · intro ts hts
+    simp only [bodyS, World.step, List.mem_append, List.mem_singleton] at hts
+    rcases hts with hts | rfl
+    · exact hi.logLen ts hts
+    · rw [transitions_length _ _ _ (by rw [hcl, hr]) hal, hr]
+  · intro o ho
+    simp only [bodyS, b11, List.mem_append, List.mem_singleton] at ho
+    rcases ho with ho | rfl
+    · exact hi.paired o ho
+    · exact ⟨x.noise, x.u, b12, b13⟩
   · simp only [bodyS]
     rw [b9, hs]
 
@@ -501,13 +532,13 @@ theorem inv_setupLearn (cfg : Cfg α) (s : Sys α) (c : Call α) (hi : Inv cfg s
   · cases hnz : c.resetNz with
     | none =>
       have hv : cfg.vecNormalize = false := by rw [← hz, hnz]; rfl
-      refine ⟨⟨?_, hi.rows, hi.acts, hi.view, ?_⟩, rfl⟩
+      refine ⟨⟨?_, hi.rows, hi.acts, hi.view, ?_, hi.logLen, hi.paired⟩, rfl⟩
       · intro _; simp [origObs, hv, World.reset, hl]
       · intro _; exact ⟨none, fun _ => rfl, by simp [origObs, hv, viewOf]⟩
     | some z =>
       have hv : cfg.vecNormalize = true := by rw [← hz, hnz]; rfl
       have hid := hp hv
-      refine ⟨⟨?_, hi.rows, hi.acts, hi.view, ?_⟩, rfl⟩
+      refine ⟨⟨?_, hi.rows, hi.acts, hi.view, ?_, hi.logLen, hi.paired⟩, rfl⟩
       · intro _; simp [origObs, hv, World.reset, hl, map_id' cfg.post hid]
       · intro _
         exact ⟨some z, fun h => by rw [hv] at h; simp at h, by simp [origObs, hv, viewOf, map_id' cfg.post hid]⟩
@@ -516,7 +547,7 @@ theorem inv_setupLearn (cfg : Cfg α) (s : Sys α) (c : Call α) (hi : Inv cfg s
       cases hs : s.st.started
       · simp [hs] at hcond
       · rfl
-    refine ⟨⟨?_, hi.rows, hi.acts, hi.view, ?_⟩, hst⟩
+    refine ⟨⟨?_, hi.rows, hi.acts, hi.view, ?_, hi.logLen, hi.paired⟩, hst⟩
     · intro _; exact hi.cur hst
     · intro _; exact hi.last hst
 
